@@ -345,10 +345,20 @@ def network_recipe(draw, ids=None, max_lanelets=8, lim=200, profile=None):
                 if neighbours == "both" and budget > 0:
                     # third lane: right neighbour (same direction) sharing the base lanelet's right boundary
                     rid = ids.new()
-                    rb = {"id": rid, "left": pl["right"], "center": gg.offset_polyline(pl["center"], pl["heads"], -2 * w),
-                          "right": gg.offset_polyline(pl["center"], pl["heads"], -3 * w), "pred": [], "succ": [],
-                          "adj_left": lid, "adj_left_same": True, "road": road}
-                    la["adj_right"], la["adj_right_same"] = rid, True
+                    if draw(st.booleans()):
+                        rb = {"id": rid, "left": pl["right"],
+                              "center": gg.offset_polyline(pl["center"], pl["heads"], -2 * w),
+                              "right": gg.offset_polyline(pl["center"], pl["heads"], -3 * w), "pred": [], "succ": [],
+                              "adj_left": lid, "adj_left_same": True, "road": road}
+                        la["adj_right"], la["adj_right_same"] = rid, True
+                    else:
+                        # oncoming lane on the RIGHT (left-hand traffic): it shares the base lanelet's right boundary,
+                        # which is its own right boundary too
+                        rb = {"id": rid, "left": gg.offset_polyline(pl["center"], pl["heads"], -3 * w)[::-1],
+                              "center": gg.offset_polyline(pl["center"], pl["heads"], -2 * w)[::-1],
+                              "right": pl["right"][::-1], "pred": [], "succ": [],
+                              "adj_right": lid, "adj_right_same": False, "road": road}
+                        la["adj_right"], la["adj_right_same"] = rid, False
                     lanelets.append(rb)
                     budget -= 1
                 if prev is not None and prev.get("nb") is not None:
